@@ -809,14 +809,27 @@ def OneLine (f : S → S) (s : S) : Prop :=
   (f s).err = none ∧ (f s).outs.length = s.outs.length + 1 ∧ (f s).p.calls.length = s.p.calls.length + 1 ∧
   (f s).p.script = s.p.script.tail
 
-theorem addOne_one_line (name : String) (a : Ans) (rest : List Ans) (s : S) (h : s.err = none)
-    (hs : s.p.script = a :: rest) (ha : NameAns serverCodes_add a) : OneLine (addOne name) s := by
+/-- the fault codes do_add has a per-name branch for, computed from the regenerated guards of its `except` chain
+    (SHUTDOWN_STATE, ALREADY_ADDED, BAD_NAME); every other code reaches `else: raise` -/
+def addWorded (c : Int) : Bool := onCode do_add_g1 c || onCode do_add_g2 c || onCode do_add_g3 c
+
+/-- what is missing in do_add: of the faults addProcessGroup raises (rpcinterface.py), exactly FAILED -- the group
+    cannot be created (F48/F49) -- has no per-name branch -/
+theorem add_unworded_codes : serverCodes_add.filter (fun c => !addWorded c) = [Faults_FAILED] := by decide
+
+/-- F50 (open).  Full statement: `addOne_one_line` for every `a` with `NameAns serverCodes_add a` -- every fault
+    addProcessGroup raises is worded for that name and the loop goes on.  It holds for the faults do_add has a
+    branch for (`addWorded`); FAILED is re-raised and ends the action (`add_failed_loses_remaining_names`).
+    Missing part: `c = Faults_FAILED`. -/
+theorem addOne_one_line_partial (name : String) (a : Ans) (rest : List Ans) (s : S) (h : s.err = none)
+    (hs : s.p.script = a :: rest) (ha : NameAns (serverCodes_add.filter addWorded) a) : OneLine (addOne name) s := by
   unfold OneLine addOne rpc guard
   simp only [h, hs, Option.isSome_none, Bool.false_eq_true, if_false]
   cases a with
   | ok v => cases v <;> simp [NameAns] at ha; simp [expectUnit, out, emit, guard, h]
   | fault c t =>
-    have hc : c = 6 ∨ c = 10 ∨ c = 90 := by simpa [NameAns, serverCodes_add, ctl_gen] using ha
+    have hf : serverCodes_add.filter addWorded = [6, 10, 90] := by decide
+    have hc : c = 6 ∨ c = 10 ∨ c = 90 := by simpa [NameAns, hf] using ha
     rcases hc with rfl | rfl | rfl <;> simp [ctl_gen, out, emit, setExit, setP, guard, h]
   | proto c => simp [NameAns] at ha
   | sock e => simp [NameAns] at ha
@@ -856,42 +869,68 @@ theorem oneLine_foldl (f : String → S → S) (codes : List Int)
       · rw [this.2.1, e2]; simp only [List.length_cons]; omega
       · rw [this.2.2, e3]; simp only [List.length_cons]; omega
 
-/-- `add <names>` / `remove <names>`: when the server answers every request with `True` or with any fault
-    addProcessGroup / removeProcessGroup can raise -- BAD_NAME, ALREADY_ADDED, STILL_RUNNING and SHUTDOWN_STATE
-    (F45) -- every name is asked about and gets exactly one line; no fault ends the action early. -/
-theorem add_remove_one_line_per_name (arg url : String) (script : List Ans) (hn : pySplit arg ≠ [])
-    (hl : (pySplit arg).length ≤ script.length) :
-    ((∀ a ∈ script.take (pySplit arg).length, NameAns serverCodes_add a) →
-      (protect (Action.add.run arg) (init url script)).outs.length = (pySplit arg).length ∧
-      (protect (Action.add.run arg) (init url script)).p.calls.length = (pySplit arg).length) ∧
-    ((∀ a ∈ script.take (pySplit arg).length, NameAns serverCodes_remove a) →
-      (protect (Action.remove.run arg) (init url script)).outs.length = (pySplit arg).length ∧
-      (protect (Action.remove.run arg) (init url script)).p.calls.length = (pySplit arg).length) := by
+/-- `remove <names>`: when the server answers every request with `True` or with any fault removeProcessGroup can
+    raise -- BAD_NAME, STILL_RUNNING and SHUTDOWN_STATE (F45) -- every name is asked about and gets exactly one line;
+    no fault ends the action early. -/
+theorem remove_one_line_per_name (arg url : String) (script : List Ans) (hn : pySplit arg ≠ [])
+    (hl : (pySplit arg).length ≤ script.length)
+    (ha : ∀ a ∈ script.take (pySplit arg).length, NameAns serverCodes_remove a) :
+    (protect (Action.remove.run arg) (init url script)).outs.length = (pySplit arg).length ∧
+    (protect (Action.remove.run arg) (init url script)).p.calls.length = (pySplit arg).length := by
   have hne : (pySplit arg).isEmpty = false := by
     cases h : pySplit arg with
     | nil => exact absurd h hn
     | cons x xs => rfl
-  constructor
-  · intro ha
-    have hg : ¬ onNames do_add_g0 (pySplit arg) = true := by simp [onNames, do_add_g0, hne]
-    have hrun : Action.add.run arg (init url script) = (pySplit arg).foldl (fun s n => addOne n s) (init url script) := by
-      simp only [Action.run, doAdd, if_neg hg]
-    have key := oneLine_foldl addOne serverCodes_add addOne_one_line (pySplit arg) (init url script) rfl hl ha
-    have hp : protect (Action.add.run arg) (init url script) = Action.add.run arg (init url script) := by
-      have herr : (Action.add.run arg (init url script)).err = none := by rw [hrun]; exact key.1
-      simp only [protect, herr, net]
-    rw [hp, hrun]
-    exact ⟨by simpa [init] using key.2.1, by simpa [init] using key.2.2⟩
-  · intro ha
-    have hg : ¬ onNames do_remove_g0 (pySplit arg) = true := by simp [onNames, do_remove_g0, hne]
-    have hrun : Action.remove.run arg (init url script) = (pySplit arg).foldl (fun s n => removeOne n s) (init url script) := by
-      simp only [Action.run, doRemove, if_neg hg]
-    have key := oneLine_foldl removeOne serverCodes_remove removeOne_one_line (pySplit arg) (init url script) rfl hl ha
-    have hp : protect (Action.remove.run arg) (init url script) = Action.remove.run arg (init url script) := by
-      have herr : (Action.remove.run arg (init url script)).err = none := by rw [hrun]; exact key.1
-      simp only [protect, herr, net]
-    rw [hp, hrun]
-    exact ⟨by simpa [init] using key.2.1, by simpa [init] using key.2.2⟩
+  have hg : ¬ onNames do_remove_g0 (pySplit arg) = true := by simp [onNames, do_remove_g0, hne]
+  have hrun : Action.remove.run arg (init url script) = (pySplit arg).foldl (fun s n => removeOne n s) (init url script) := by
+    simp only [Action.run, doRemove, if_neg hg]
+  have key := oneLine_foldl removeOne serverCodes_remove removeOne_one_line (pySplit arg) (init url script) rfl hl ha
+  have hp : protect (Action.remove.run arg) (init url script) = Action.remove.run arg (init url script) := by
+    have herr : (Action.remove.run arg (init url script)).err = none := by rw [hrun]; exact key.1
+    simp only [protect, herr, net]
+  rw [hp, hrun]
+  exact ⟨by simpa [init] using key.2.1, by simpa [init] using key.2.2⟩
+
+/-- F50 (open).  Full statement: as `remove_one_line_per_name`, for every fault of `serverCodes_add` (BAD_NAME,
+    ALREADY_ADDED, SHUTDOWN_STATE, FAILED).  It holds when no answer is the FAILED fault
+    (`serverCodes_add.filter addWorded`, see `add_unworded_codes`): then every name is asked about and gets exactly
+    one line.  Missing part: a FAILED answer, which ends the action (`add_failed_loses_remaining_names`). -/
+theorem add_one_line_per_name_partial (arg url : String) (script : List Ans) (hn : pySplit arg ≠ [])
+    (hl : (pySplit arg).length ≤ script.length)
+    (ha : ∀ a ∈ script.take (pySplit arg).length, NameAns (serverCodes_add.filter addWorded) a) :
+    (protect (Action.add.run arg) (init url script)).outs.length = (pySplit arg).length ∧
+    (protect (Action.add.run arg) (init url script)).p.calls.length = (pySplit arg).length := by
+  have hne : (pySplit arg).isEmpty = false := by
+    cases h : pySplit arg with
+    | nil => exact absurd h hn
+    | cons x xs => rfl
+  have hg : ¬ onNames do_add_g0 (pySplit arg) = true := by simp [onNames, do_add_g0, hne]
+  have hrun : Action.add.run arg (init url script) = (pySplit arg).foldl (fun s n => addOne n s) (init url script) := by
+    simp only [Action.run, doAdd, if_neg hg]
+  have key := oneLine_foldl addOne (serverCodes_add.filter addWorded) addOne_one_line_partial (pySplit arg)
+    (init url script) rfl hl ha
+  have hp : protect (Action.add.run arg) (init url script) = Action.add.run arg (init url script) := by
+    have herr : (Action.add.run arg (init url script)).err = none := by rw [hrun]; exact key.1
+    simp only [protect, herr, net]
+  rw [hp, hrun]
+  exact ⟨by simpa [init] using key.2.1, by simpa [init] using key.2.2⟩
+
+-- the hypotheses are satisfiable by a script that mixes a success with the worded faults
+example : ∀ a ∈ ([.ok .unit, .fault 90 "ALREADY_ADDED: b", .fault 10 "BAD_NAME: c", .fault 6 "SHUTDOWN_STATE"] : List Ans),
+    NameAns (serverCodes_add.filter addWorded) a := by
+  have hf : serverCodes_add.filter addWorded = [6, 10, 90] := by decide
+  intro a ha
+  simp only [List.mem_cons, List.mem_nil_iff, or_false] at ha
+  rcases ha with rfl | rfl | rfl | rfl <;> simp [NameAns, hf]
+
+/-- F50, the counterexample: `add a b` where the group a cannot be created: addProcessGroup(a) answers FAILED, the
+    fault is re-raised, one generic "error: ..." line is printed and b is never asked about (1 call) although the
+    server would have added it -/
+theorem add_failed_loses_remaining_names :
+    (run "u" "add a b" [.fault 30 "FAILED: a: cannot bind", .ok .unit]).outs = ["error: Fault"] ∧
+    (run "u" "add a b" [.fault 30 "FAILED: a: cannot bind", .ok .unit]).p.calls.length = 1 ∧
+    (run "u" "add a b" [.fault 30 "FAILED: a: cannot bind", .ok .unit]).p.exit = 1 := by
+  decide
 
 /-- F45 as the code has it now: `remove` against a daemon that is shutting down words the fault per name -/
 example : (run "u" "remove foo bar" [.fault 6 "SHUTDOWN_STATE", .fault 6 "SHUTDOWN_STATE"]).outs =
